@@ -133,7 +133,7 @@ func (c *Ctx) execCall(s *State, in ssa.Instruction, cc *ssa.CallCommon, res ssa
 	isEvent := c.eng.isEvent(evName)
 
 	// 1. modular: callee (or assumed external) has a contract
-	if fc != nil && (fc.HasSpec || fc.Assumed) && !fc.Inline {
+	if fc != nil && (fc.HasSpec || fc.Assumed || fc.Pure) && !fc.Inline {
 		r := c.applyContract(s, in, fc, callee, cc, recv, args, res)
 		ev.Res = r
 		if isEvent {
